@@ -79,12 +79,16 @@ Definition sem (c ng : nat) (stale : bool) (fs : fsstate) (o : op) : fsstate * r
   end.
 
 (* ---------- programs ---------- *)
-Inductive prog (A : Type) := Ret (a : A) | Do (o : op) (k : res -> prog A).
+(* [Chk k] = a context check (parallelisation.DetermineContextError(ctx)) that is not a backend operation: it costs no
+   step; if the context of the call has been cancelled (deadline of LockWithTimeout) the call ends there, else it
+   goes on with k (see [nxt]). *)
+Inductive prog (A : Type) := Ret (a : A) | Do (o : op) (k : res -> prog A) | Chk (k : prog A).
 Arguments Ret {A} a.
 Arguments Do {A} o k.
+Arguments Chk {A} k.
 
 Fixpoint bind {A B} (p : prog A) (f : A -> prog B) : prog B :=
-  match p with Ret a => f a | Do o k => Do o (fun r => bind (k r) f) end.
+  match p with Ret a => f a | Do o k => Do o (fun r => bind (k r) f) | Chk k => Chk (bind k f) end.
 Notation "x <- p ;; q" := (bind p (fun x => q)) (at level 61, p at next level, right associativity).
 
 Inductive result (A : Type) := Ok (a : A) | Err.      (* error kinds do not influence the lock's control flow *)
@@ -217,8 +221,8 @@ Fixpoint try_lock (fuel : nat) (ovr wt : bool) : prog ares :=
                 s2 <- is_stale ;;                      (* ReleaseIfStale *)
                 if s2 then
                   if wt then Ret ACancelled
-                  else (_ <- unlock ;; try_lock f ovr wt)
-                else try_lock f ovr wt
+                  else (_ <- unlock ;; Chk (try_lock f ovr wt))
+                else Chk (try_lock f ovr wt)         (* TryLock again: lockfile.go:131 context check first *)
             end
           else Ret AStale
         else Ret ALocked
@@ -232,6 +236,12 @@ Fixpoint try_lock (fuel : nat) (ovr wt : bool) : prog ares :=
    performs no further backend operation. *)
 Inductive api := TryLock | Lock | LockWT | Unlock | LockWTX.
 Definition is_acquire (a : api) : bool := match a with Unlock => false | _ => true end.
+Definition expired (a : api) : bool := match a with LockWTX => true | _ => false end.
+
+(* resolve the context checks at the head of a continuation *)
+Fixpoint norm (x : bool) (p : prog ares) : prog ares :=
+  match p with Chk k => if x then Ret ACancelled else norm x k | _ => p end.
+Definition nxt (a : api) (p : prog ares) : prog ares := norm (expired a) p.
 
 Definition fuel0 := 50.
 Definition prog_of (a : api) (ovr : bool) : prog ares :=
@@ -392,8 +402,8 @@ Definition exec (s : state) (it : item) : option (state * option obs) :=
               let bad' := bad s || (removed && live_owner (fs s) (cs s)) in
               let eng' := if created then Some (ngen s) else eng x in
               let gh' := upd (gh x) o r in
-              let x1 := {| ovr := ovr x; cur := Some (a, k r); holds := holds x; alive := alive x; eng := eng'; hbs := hbs x; gh := gh' |} in
-              let '(x2, ret) := match k r with Ret v => finish x1 a v | _ => (x1, None) end in
+              let x1 := {| ovr := ovr x; cur := Some (a, nxt a (k r)); holds := holds x; alive := alive x; eng := eng'; hbs := hbs x; gh := gh' |} in
+              let '(x2, ret) := match nxt a (k r) with Ret v => finish x1 a v | _ => (x1, None) end in
               Some ({| fs := fs'; ngen := if created then S (ngen s) else ngen s; bad := bad'; cs := set_nth (cs s) c x2 |},
                     Some {| o_op := opc_of o; o_res := resc_of r; o_ret := ret |})
           | _ => None
